@@ -64,6 +64,9 @@ type c14Spec struct {
 	Pull   string  `json:"pull"`   // "" | Always | Never | IfNotPresent
 	Paused bool    `json:"paused"`
 	Labels []c14KV `json:"labels"` // commonLabels, sorted by key
+	// the other spec fields Reconcile copies to the revision, as serialised JSON leaves sorted by path
+	// (c14ExtraKeys without packagePullPolicy, which is Pull): absent = the field is not set
+	Extra []c14KV `json:"extra,omitempty"`
 }
 
 type c14Pkg struct {
@@ -85,6 +88,7 @@ type c14Rev struct {
 	Labels   []c14KV `json:"labels"`
 	Fin      bool    `json:"fin"`
 	Deleting bool    `json:"deleting"`
+	Extra    []c14KV `json:"extra"` // the copied spec leaves (c14ExtraKeys) the object serialises, sorted by path
 }
 
 type c14Fault struct {
@@ -102,6 +106,10 @@ type c14Step struct {
 	Faults  []c14Fault `json:"faults,omitempty"` // o: fail | conflict | crashBefore | crashAfter | fail:<class> (c14Classes)
 	Head    string     `json:"head,omitempty"`   // registry answer for the package's source: hex digest | "nil" | "err" (opaque error) | "err:<kind>" (c14ErrKinds)
 	ParseOK bool       `json:"parseOk,omitempty"`
+	// reconcile on the REAL xpkg.K8sFetcher over the in-process registry (c14_reg.go): "<artefact>|<mode>",
+	// artefact = image:<x> | index:<x>, mode = ok | head404 | head405 | head500 | down; Head is then the
+	// digest the registry holds for the package's source (err:503 when down)
+	Reg string `json:"reg,omitempty"`
 	Acts    []c14Act   `json:"acts,omitempty"` // what OTHER clients do right before API call k of this reconcile (c14_world.go)
 	Lag     *c14Lag    `json:"lag,omitempty"`  // how far the informer cache behind the reconciler's client is behind (generator's intent)
 	View    *c14View   `json:"view,omitempty"` // what that cache holds (filled in by the harness from Lag; a parameter of the model)
@@ -334,8 +342,111 @@ func c14LabelsMap(kv []c14KV) map[string]string {
 	return m
 }
 
+// c14ExtraKeys: the revision spec leaves (other than image, commonLabels and the two TLS secret names)
+// written by the package -> revision copies of Reconcile (lean/Xp/Gen/C14Skel.lean c14CopiedFields;
+// Xp.C14.extraKeys; tied by copied_fields_match_source / extra_keys_are_the_copied_leaves).
+var c14ExtraKeys = []string{"controllerConfigRef.name", "ignoreCrossplaneConstraints", "packagePullPolicy", "packagePullSecrets",
+	"runtimeConfigRef.apiVersion", "runtimeConfigRef.kind", "runtimeConfigRef.name", "skipDependencyResolution"}
+
+// c14ExtraOf reads the copied leaves from a serialised spec. withPull=false leaves packagePullPolicy out
+// (for the package it is c14Spec.Pull).
+func c14ExtraOf(spec map[string]any, withPull bool) []c14KV {
+	out := []c14KV{}
+	for _, k := range c14ExtraKeys {
+		if k == "packagePullPolicy" && !withPull {
+			continue
+		}
+		var v any = spec
+		ok := true
+		for _, part := range strings.Split(k, ".") {
+			m, isMap := v.(map[string]any)
+			if !isMap {
+				ok = false
+				break
+			}
+			if v, ok = m[part]; !ok {
+				break
+			}
+		}
+		if !ok || v == nil {
+			continue
+		}
+		switch t := v.(type) {
+		case string:
+			out = append(out, c14KV{k, t})
+		case bool:
+			out = append(out, c14KV{k, fmt.Sprint(t)})
+		case []any:
+			names := []string{}
+			for _, e := range t {
+				if em, isMap := e.(map[string]any); isMap {
+					names = append(names, fmt.Sprint(em["name"]))
+				}
+			}
+			out = append(out, c14KV{k, strings.Join(names, ",")})
+		default:
+			out = append(out, c14KV{k, fmt.Sprint(t)})
+		}
+	}
+	return out
+}
+
+func c14ExtraGet(kv []c14KV, k string) (string, bool) {
+	for _, e := range kv {
+		if e[0] == k {
+			return e[1], true
+		}
+	}
+	return "", false
+}
+
+// c14ApplyExtra sets the copied spec fields of a package or a revision (both have the same setters) from leaves.
+func c14ApplyExtra(o interface {
+	SetPackagePullSecrets([]corev1.LocalObjectReference)
+	SetIgnoreCrossplaneConstraints(*bool)
+	SetSkipDependencyResolution(*bool)
+}, kv []c14KV) {
+	var secrets []corev1.LocalObjectReference
+	if v, ok := c14ExtraGet(kv, "packagePullSecrets"); ok && v != "" {
+		for _, n := range strings.Split(v, ",") {
+			secrets = append(secrets, corev1.LocalObjectReference{Name: n})
+		}
+	}
+	o.SetPackagePullSecrets(secrets)
+	b := func(k string) *bool {
+		if v, ok := c14ExtraGet(kv, k); ok {
+			return ptr.To(v == "true")
+		}
+		return nil
+	}
+	o.SetIgnoreCrossplaneConstraints(b("ignoreCrossplaneConstraints"))
+	o.SetSkipDependencyResolution(b("skipDependencyResolution"))
+	if rt, ok := o.(interface {
+		SetRuntimeConfigRef(*pkgv1.RuntimeConfigReference)
+		SetControllerConfigRef(*pkgv1.ControllerConfigReference)
+	}); ok {
+		var rc *pkgv1.RuntimeConfigReference
+		if n, ok := c14ExtraGet(kv, "runtimeConfigRef.name"); ok {
+			rc = &pkgv1.RuntimeConfigReference{Name: n}
+			if v, ok := c14ExtraGet(kv, "runtimeConfigRef.apiVersion"); ok {
+				rc.APIVersion = ptr.To(v)
+			}
+			if v, ok := c14ExtraGet(kv, "runtimeConfigRef.kind"); ok {
+				rc.Kind = ptr.To(v)
+			}
+		}
+		rt.SetRuntimeConfigRef(rc)
+		var cc *pkgv1.ControllerConfigReference
+		if n, ok := c14ExtraGet(kv, "controllerConfigRef.name"); ok {
+			cc = &pkgv1.ControllerConfigReference{Name: n}
+		}
+		rt.SetControllerConfigRef(cc)
+	}
+}
+
 func c14ApplySpec(p pkgv1.Package, s c14Spec) {
 	p.SetSource(s.Source)
+	c14ApplyExtra(p, s.Extra)
 	if s.Limit != nil {
 		p.SetRevisionHistoryLimit(ptr.To(*s.Limit))
 	} else {
@@ -374,6 +485,10 @@ func c14SeedRev(st *Store, k c14Kind, r c14Rev) {
 	o.SetDesiredState(pkgv1.PackageRevisionDesiredState(r.State))
 	o.SetSource(r.Image)
 	o.SetCommonLabels(c14LabelsMap(r.Labels))
+	c14ApplyExtra(o, r.Extra)
+	if v, ok := c14ExtraGet(r.Extra, "packagePullPolicy"); ok {
+		o.SetPackagePullPolicy(ptr.To(corev1.PullPolicy(v)))
+	}
 	if r.Ctrl != "" {
 		o.SetOwnerReferences([]metav1.OwnerReference{{APIVersion: pkgv1.SchemeGroupVersion.String(), Kind: k.pkgGK.Kind, Name: "owner-" + r.Ctrl, UID: types.UID(r.Ctrl), Controller: ptr.To(true), BlockOwnerDeletion: ptr.To(true)}})
 	}
@@ -389,7 +504,10 @@ func c14SeedRev(st *Store, k c14Kind, r c14Rev) {
 }
 
 func c14RevOf(u *unstructured.Unstructured) c14Rev {
-	r := c14Rev{Name: u.GetName(), Labels: []c14KV{}}
+	r := c14Rev{Name: u.GetName(), Labels: []c14KV{}, Extra: []c14KV{}}
+	if sp, ok := u.Object["spec"].(map[string]any); ok {
+		r.Extra = c14ExtraOf(sp, true)
+	}
 	r.Parent = u.GetLabels()[pkgv1.LabelParentPackage]
 	switch n := func() any { v, _, _ := unstructured.NestedFieldNoCopy(u.Object, "spec", "revision"); return v }().(type) {
 	case int64:
@@ -438,6 +556,24 @@ func c14PkgObsOf(st *Store, k c14Kind, pname string) c14PkgObs {
 		}
 	}
 	return o
+}
+
+// c14CondStatus: the status of condition `typ` of an object ("" = no such condition).
+func c14CondStatus(u *unstructured.Unstructured, typ string) string {
+	conds, _, _ := unstructured.NestedSlice(u.Object, "status", "conditions")
+	for _, c := range conds {
+		if cm, ok := c.(map[string]any); ok && cm["type"] == typ {
+			return fmt.Sprint(cm["status"])
+		}
+	}
+	return ""
+}
+
+func c14NonNil(kv []c14KV) []c14KV {
+	if kv == nil {
+		return []c14KV{}
+	}
+	return kv
 }
 
 func c14SameRevs(a, b []c14Rev) bool { return mustJSON(a) == mustJSON(b) }
@@ -547,6 +683,31 @@ func c14Run(s *c14Scn) (c14Obs, []Mon, string) {
 		manager.WithRevisioner(manager.NewPackageRevisioner(reg, manager.WithDefaultRegistry(xpkg.DefaultRegistry))),
 		manager.WithConfigStore(xpkg.NewImageConfigStore(cl, "crossplane-system")),
 	)
+	// the same reconciler on the REAL K8sFetcher over an in-process registry, for steps with `reg`
+	var regSrv *c14Reg
+	var realFetcher xpkg.Fetcher
+	var recReal *manager.Reconciler
+	needReal := false
+	for _, stp := range s.Steps {
+		if stp.Reg != "" {
+			needReal = true
+		}
+	}
+	if needReal {
+		regSrv = newC14Reg()
+		if f, ferr := c14RealFetcher(regSrv); ferr == nil {
+			realFetcher = f
+			recReal = manager.NewReconciler(c14Mgr{c: cl},
+				manager.WithNewPackageFn(k.newPkg),
+				manager.WithNewPackageRevisionFn(k.newRev),
+				manager.WithNewPackageRevisionListFn(k.newRevList),
+				manager.WithRevisioner(manager.NewPackageRevisioner(f, manager.WithDefaultRegistry(xpkg.DefaultRegistry))),
+				manager.WithConfigStore(xpkg.NewImageConfigStore(cl, "crossplane-system")),
+			)
+		} else {
+			addMon("C14:panic", "cannot build the real K8sFetcher: "+ferr.Error())
+		}
+	}
 	// an independent instance of the real revisioner, used by the monitors only
 	monReg := &c14Registry{}
 	monRev := manager.NewPackageRevisioner(monReg, manager.WithDefaultRegistry(xpkg.DefaultRegistry))
@@ -631,6 +792,30 @@ func c14Run(s *c14Scn) (c14Obs, []Mon, string) {
 			}
 			nRec++
 			pkgsSeen[pn] = true
+			theRec := rec
+			if step.Reg != "" && recReal != nil {
+				// the registry holds the step's artefact under the package's source and treats HEAD as told
+				art, mode := c14RegStep(step.Reg)
+				step.Head = c14RegHead(step.Reg)
+				world["registry"] = true
+				if perr := regSrv.push(curSpec.Source, art); perr == nil {
+					regSrv.mode = mode
+					// direct monitor on the fetcher: the digest it reports is the digest of the manifest the
+					// registry holds for the reference, whether or not HEAD is served
+					if mode != "down" {
+						var got string
+						var herr error
+						if pan := Guard(func() { got, herr = c14ProbeHead(realFetcher, curSpec.Source, step.Head) }); pan != "" {
+							addMon("C14:panic", pan)
+						} else if herr != nil {
+							addMon("C14:fetcher-digest-depends-on-head-support", fmt.Sprintf("reconcile %d: Head(%s) failed (%v) although the registry serves GET (HEAD mode %s)", nRec, curSpec.Source, herr, mode))
+						} else if got != step.Head {
+							addMon("C14:fetcher-digest-depends-on-head-support", fmt.Sprintf("reconcile %d: Head(%s) reported digest %.12s, the registry holds %s with digest %.12s (HEAD mode %s)", nRec, curSpec.Source, got, art, step.Head, mode))
+						}
+					}
+					theRec = recReal
+				}
+			}
 			if hc := c14HeadClass(step.Head); hc != "digest" && fetchCls == "none" {
 				fetchCls = hc
 				if srcEdited {
@@ -667,6 +852,12 @@ func c14Run(s *c14Scn) (c14Obs, []Mon, string) {
 			before := c14Snapshot(st, k)
 			trace := [][]c14Rev{before}
 			pre := c14PkgObsOf(st, k, pn)
+			preHealth := map[string]string{} // Healthy status of every revision of the package as stored before the reconcile
+			for _, u := range st.OfKind(k.revGK) {
+				if u.GetLabels()[pkgv1.LabelParentPackage] == pn {
+					preHealth[u.GetName()] = c14CondStatus(u, "Healthy")
+				}
+			}
 			preSnap := map[int][]c14Rev{} // the revisions right before API call k (after what other clients did)
 			preRV := map[int]map[string]string{}
 			postRV := map[int]map[string]string{}
@@ -734,12 +925,15 @@ func c14Run(s *c14Scn) (c14Obs, []Mon, string) {
 			var res reconcile.Result
 			var err error
 			if pan := Guard(func() {
-				res, err = rec.Reconcile(context.Background(), reconcile.Request{NamespacedName: types.NamespacedName{Name: pn}})
+				res, err = theRec.Reconcile(context.Background(), reconcile.Request{NamespacedName: types.NamespacedName{Name: pn}})
 			}); pan != "" {
 				addMon("C14:panic", pan)
 				err = errors.New("panic")
 			}
 			st.After, st.Before = nil, nil
+			if regSrv != nil {
+				regSrv.mode = "ok"
+			}
 			ro := c14RecObs{Trace: trace}
 			switch {
 			case st.Crashed():
@@ -970,6 +1164,38 @@ func c14Run(s *c14Scn) (c14Obs, []Mon, string) {
 					}
 					if cur.Image != seenSpec.Source {
 						addMon("C14:current-wrong-image", fmt.Sprintf("current %s has image %q, package source %q", curName, cur.Image, seenSpec.Source))
+					}
+					// the spec copy: every leaf the package serialises for a copied field is on the current
+					// revision with the package's value (current_revision_carries_package_fields), and its
+					// commonLabels are exactly the package's
+					wantLeaves := append([]c14KV{}, seenSpec.Extra...)
+					if seenSpec.Pull != "" {
+						wantLeaves = append(wantLeaves, c14KV{"packagePullPolicy", seenSpec.Pull})
+					}
+					for _, kv := range wantLeaves {
+						if got, ok := c14ExtraGet(cur.Extra, kv[0]); !ok || got != kv[1] {
+							addMon("C14:copied-field-differs", fmt.Sprintf("reconcile %d of %s succeeded, package spec %s = %q, current revision %s has %q (set: %v)", nRec, pn, kv[0], kv[1], curName, got, ok))
+						}
+					}
+					// the package's conditions (Xp.C14.pkgConditions): Installed=True iff the current revision is
+					// Active; Healthy = the listed current revision's Healthy status, left alone if it has none
+					if pu := st.Peek(k.pkgGK, "", pn); pu != nil {
+						inst := c14CondStatus(pu, "Installed")
+						if (inst == "True") != (cur.State == string(pkgv1.PackageRevisionActive)) || inst == "" {
+							addMon("C14:package-condition-wrong", fmt.Sprintf("reconcile %d of %s succeeded, current revision %s is %q, the package reports Installed=%q", nRec, pn, curName, cur.State, inst))
+						}
+						if len(step.Acts) == 0 && step.View == nil && !cl.listNotFound {
+							want := preHealth[curName]
+							if want == "" {
+								want = "Unknown" // GetCondition answers Unknown for a condition that is not there
+							}
+							if got := c14CondStatus(pu, "Healthy"); got != want {
+								addMon("C14:package-condition-wrong", fmt.Sprintf("reconcile %d of %s succeeded, current revision %s was listed with Healthy=%q, the package reports Healthy=%q", nRec, pn, curName, preHealth[curName], got))
+							}
+						}
+					}
+					if mustJSON(c14NonNil(cur.Labels)) != mustJSON(c14NonNil(seenSpec.Labels)) {
+						addMon("C14:copied-field-differs", fmt.Sprintf("reconcile %d of %s succeeded, package commonLabels %v, current revision %s has %v", nRec, pn, seenSpec.Labels, curName, cur.Labels))
 					}
 				}
 			}
@@ -1209,6 +1435,62 @@ func c14GenLabels(r *Rng) []c14KV {
 	return []c14KV{}
 }
 
+// c14GenExtra draws the copied spec fields of a package (pull secrets, the two flags, and - for kinds with a
+// runtime - the runtime config reference and, cc, the controller config reference: only a Provider has one, a
+// Function's accessor is a no-op, a FunctionRevision has the field); nil (nothing set) half of the time, so that edits
+// CLEAR fields as often as they set them. Leaves in path order (c14ExtraKeys).
+func c14GenExtra(r *Rng, runtime, cc bool) []c14KV {
+	if r.Chance(2, 5) {
+		return nil
+	}
+	out := []c14KV{}
+	if runtime && cc && r.Chance(1, 4) {
+		out = append(out, c14KV{"controllerConfigRef.name", Pick(r, []string{"cc1", "cc2"})})
+	}
+	if r.Chance(1, 3) {
+		out = append(out, c14KV{"ignoreCrossplaneConstraints", Pick(r, []string{"true", "false"})})
+	}
+	if r.Chance(1, 2) {
+		out = append(out, c14KV{"packagePullSecrets", Pick(r, []string{"s1", "s2", "s1,s2"})})
+	}
+	if runtime && r.Chance(1, 3) {
+		if r.Chance(1, 3) {
+			out = append(out, c14KV{"runtimeConfigRef.apiVersion", Pick(r, []string{"pkg.crossplane.io/v1beta1", "x/v1"})})
+		}
+		if r.Chance(1, 3) {
+			out = append(out, c14KV{"runtimeConfigRef.kind", "DeploymentRuntimeConfig"})
+		}
+		out = append(out, c14KV{"runtimeConfigRef.name", Pick(r, []string{"default", "rc1"})})
+	}
+	if r.Chance(1, 3) {
+		out = append(out, c14KV{"skipDependencyResolution", Pick(r, []string{"true", "false"})})
+	}
+	if len(out) == 0 {
+		return nil
+	}
+	return out
+}
+
+// c14SetKV sets key k in a path-sorted leaf list.
+func c14SetKV(kv []c14KV, k, v string) []c14KV {
+	out := []c14KV{}
+	done := false
+	for _, e := range kv {
+		if e[0] == k {
+			continue
+		}
+		if !done && k < e[0] {
+			out = append(out, c14KV{k, v})
+			done = true
+		}
+		out = append(out, e)
+	}
+	if !done {
+		out = append(out, c14KV{k, v})
+	}
+	return out
+}
+
 func c14GenLimit(r *Rng) *int64 {
 	switch r.Intn(12) {
 	case 0:
@@ -1256,6 +1538,8 @@ func c14Gen(r *Rng, tier string) c14Scn {
 	uid := "u-" + pn[:1]
 	s.Pkg = c14Pkg{Name: pn, UID: uid, Spec: c14GenSpec(r)}
 	s.Pkg.Spec.Paused = r.Chance(1, 20)
+	rt := s.Kind != "Configuration" // Configurations have no runtime fields
+	s.Pkg.Spec.Extra = c14GenExtra(r, rt, s.Kind == "Provider")
 	// registry: tag -> digest; tags may share a digest; tags may move later
 	tagDigest := map[string]string{}
 	for _, src := range c14Sources {
@@ -1299,6 +1583,13 @@ func c14Gen(r *Rng, tier string) c14Scn {
 		}
 		if r.Chance(2, 3) {
 			rv.Fin = true
+		}
+		if r.Chance(1, 3) {
+			// copied fields of an earlier package spec (possibly since cleared / changed on the package)
+			rv.Extra = c14GenExtra(r, rt, true)
+			if r.Chance(1, 3) {
+				rv.Extra = c14SetKV(rv.Extra, "packagePullPolicy", Pick(r, []string{"Always", "IfNotPresent", "Never"}))
+			}
 		}
 		s.Revs = append(s.Revs, rv)
 	}
@@ -1352,6 +1643,9 @@ func c14Gen(r *Rng, tier string) c14Scn {
 			}
 			if r.Chance(1, 12) {
 				ns = c14GenSpec(r)
+			}
+			if r.Chance(1, 4) {
+				ns.Extra = c14GenExtra(r, rt, s.Kind == "Provider") // set, change or CLEAR copied fields
 			}
 			cur = ns
 			s.Steps = append(s.Steps, c14Step{Op: "edit", Spec: &ns})
@@ -1536,6 +1830,51 @@ func c14GenFetchErr(r *Rng) c14Scn {
 		s.Steps = append(s.Steps, c14Step{Op: "reconcile", Head: Pick(r, c14ErrKinds), Faults: faults(4)})
 		s.Steps = append(s.Steps, c14Step{Op: "reconcile", Head: bd})
 		s.Steps = append(s.Steps, c14Step{Op: "reconcile", Head: bd})
+	}
+	return s
+}
+
+// c14GenTerminating produces the shape "the collected revision is still there": more than limit+1 revisions,
+// the lowest-numbered non-current one (sometimes two of them) already deleted but held by its finalizer
+// (deletionTimestamp set), reconciled 2-4 times, the revision controller letting it go at some point or never:
+// the List keeps showing the terminating revision, it still counts, and it stays the oldest non-current one.
+func c14GenTerminating(r *Rng) c14Scn {
+	pn := Pick(r, c14Names[:3])
+	uid := "u-" + pn[:1]
+	limit := int64(r.Range(1, 2))
+	n := int(limit) + 2 + r.Intn(2)
+	s := c14Scn{Kind: Pick(r, []string{"Provider", "Configuration", "Function"}), Revs: []c14Rev{}, Steps: []c14Step{}}
+	perm := r.Perm(5)
+	for i := 0; i < n && i < 5; i++ {
+		st := "Inactive"
+		if i == n-1 {
+			st = "Active"
+		}
+		rv := c14Rev{Name: xpkgFriendly(pn, c14Digests[perm[i]]), Parent: pn, Number: int64(i + 1), State: st, Ctrl: uid, Image: c14Sources[i%4], Labels: []c14KV{}, Fin: r.Chance(2, 3)}
+		if i == 0 || (i == 1 && r.Chance(1, 3)) {
+			rv.Fin, rv.Deleting = true, true
+		}
+		s.Revs = append(s.Revs, rv)
+	}
+	last := len(s.Revs) - 1
+	var dig string
+	for _, d := range c14Digests {
+		if xpkgFriendly(pn, d) == s.Revs[last].Name {
+			dig = d
+		}
+	}
+	s.Pkg = c14Pkg{Name: pn, UID: uid, Spec: c14Spec{Source: c14Sources[last%4], Limit: ptr.To(limit), Policy: Pick(r, []string{"", "Manual", "Automatic"}), Pull: Pick(r, []string{"", "Always"}), Labels: []c14KV{}},
+		CurRev: s.Revs[last].Name, CurID: c14Sources[last%4]}
+	for i, m := 0, r.Range(2, 4); i < m; i++ {
+		s.Steps = append(s.Steps, c14Step{Op: "reconcile", Head: dig, Faults: func() []c14Fault {
+			if r.Chance(1, 4) {
+				return c14GenFaults(r, "quick")
+			}
+			return nil
+		}()})
+		if r.Chance(1, 4) {
+			s.Steps = append(s.Steps, c14Step{Op: "finalize"})
+		}
 	}
 	return s
 }
@@ -1746,6 +2085,12 @@ func init() {
 				i++
 			case x >= 10 && x < 16:
 				run(c14GenFetchErr(c.Rng), "fetcherr")
+				i++
+			case x >= 16 && x < 19:
+				run(c14GenRealReg(c.Rng), "registry")
+				i++
+			case x == 19:
+				run(c14GenTerminating(c.Rng), "terminating")
 				i++
 			case x == 9 && c.N-i > 60 && c.Rng.Chance(1, 3):
 				base := c14Gen(c.Rng, c.Tier)
